@@ -510,7 +510,9 @@ impl Mdl {
     /// 'session not present' after a CONNECT without clean start: the earlier session is discarded; what has been
     /// accepted / notified since the CONNECT belongs to the new one
     pub fn drop_old_session(&mut self) {
-        let old = std::mem::take(&mut self.old_ids);
+        // (an identifier that was released in the meantime - acknowledged early, erased - and is now held by the
+        // application or by a pending SUBSCRIBE / UNSUBSCRIBE is no longer the old exchange's)
+        let old: BTreeSet<u32> = std::mem::take(&mut self.old_ids).into_iter().filter(|id| matches!(self.ids.get(id), Some(Owner::Pub1 | Owner::Pub2 | Owner::Rel | Owner::RelOwed))).collect();
         for id in &old {
             self.ids.remove(id);
             self.owed_rel.remove(id);
